@@ -1,4 +1,5 @@
 import EchVerif.Lemmas.Pipe
+import EchVerif.Lemmas.Multi
 /-
   C07 — Conn is an order-preserving, lossless byte pipe for every fragmentation and cut.
   The transport model hands the client's bytes out as an arbitrary list of chunks (`Tr.chunks`);
@@ -102,5 +103,29 @@ theorem C07_write_pipe_run (bs : List Bytes) (st st' : St) (t t' : Tr) (hopen : 
 
 /-- non-vacuity: the hypotheses are met by a freshly accepted connection (retry = 0) -/
 example : ((0 : Nat) ≠ 1 ∨ false = true) := Or.inl (by decide)
+
+/-- Several connections in one process, their operations interleaved in any order (`ECH/Multi.lean`):
+    seen from connection `i`, the run is the single-connection run of `i`'s own operations - same final
+    state, same results of its Reads and Writes in the same order. Together with the pipe theorems above:
+    each connection is a lossless pipe of its own bytes whatever the process does on the others. -/
+theorem C07_connections_independent (H : Hpke) (xs : List (Nat × Op)) (m : Multi) (i : Nat) :
+    (mrun H m xs).1 i = (runOps H (m i) (opsOf i xs)).1 ∧
+    obsOf i (mrun H m xs).2 = (runOps H (m i) (opsOf i xs)).2 :=
+  mrun_proj H xs m i
+
+/-- What the other connections do - which operations, how many, in which order relative to `i`'s - is
+    invisible on connection `i`. -/
+theorem C07_other_connections_invisible (H : Hpke) (xs ys : List (Nat × Op)) (m m' : Multi) (i : Nat)
+    (hm : m i = m' i) (ho : opsOf i xs = opsOf i ys) :
+    obsOf i (mrun H m xs).2 = obsOf i (mrun H m' ys).2 ∧ (mrun H m xs).1 i = (mrun H m' ys).1 i := by
+  have a := mrun_proj H xs m i
+  have b := mrun_proj H ys m' i
+  rw [hm, ho] at a
+  exact ⟨a.2.trans b.2.symm, a.1.trans b.1.symm⟩
+
+/-- non-vacuity: two interleavings that agree on connection 0 and differ on connection 1 -/
+example : opsOf 0 [(0, Op.read 5), (1, Op.write [1, 2]), (0, Op.read 7)]
+        = opsOf 0 [(1, Op.read 1), (0, Op.read 5), (0, Op.read 7), (1, Op.feed [[3]])] := by
+  simp [opsOf]
 
 end ECH
